@@ -177,6 +177,13 @@ impl ToPrimitive for BigDecimalRef<'_> {
     }
 
     fn to_f64(&self) -> Option<f64> {
+        // route powi through the simulation seam (shadows the module-level powi here)
+        #[cfg(bigdecimal_verif)]
+        fn powi(x: f64, n: i32) -> f64 {
+            use crate::verif_hooks::{float, FloatSite};
+            float(FloatSite::ToF64Powi, n as f64, self::powi(x, n))
+        }
+
         let copy_sign_to_float = |f: f64| if self.sign == Sign::Minus { f.neg() } else { f };
 
         if self.digits.is_zero() {
